@@ -243,6 +243,14 @@ ScopeIsolation ==
     Ready => \A id \in BlockIds(prog) :
         \A e \in Visible(World(prog), BlockTrust(prog, id)) : e.o \subseteq BlockTrust(prog, id)
 
+\* the definitions proved about in TrustProof.tla (tlapm) are the ones of Authorizer.tla: same value on every
+\* program, owner and scope of the universe
+TP == INSTANCE TrustProof
+TrustDefsAgree ==
+    Ready => \A id \in BlockIds(prog) \cup {AZ} : \A sc \in ScopeMenu :
+                 /\ TP!ElemTrust(prog, sc, id) = ElemTrust(prog, sc, id)
+                 /\ (Universe = "atten" => TP!ElemTrust(TP!Extend(prog, extb), sc, id) = ElemTrust(Extend(prog, extb), sc, id))
+
 \* C03
 PE == Extend(prog, extb)
 Monotone ==
